@@ -515,11 +515,12 @@ def check(run):
     okw = twa.top is not None and twa.top.kind == "ARRAY" and [c.kind for c in twa.top.children] == ["UINT64", "UINT64"]
     members_w = [consumption.member_of(path(c.ev.call["args"][0])) for c in twa.top.children] if okw else []
     members_r = []
-    for sw in [n for n in ir.walk(ts_r["body"]) if n.get("k") == "Switch"]:
-        for labels, stmts_, falls, line in consumption.case_groups(sw):
-            for lp, rhs, node in consumption.assignment_targets(stmts_):
-                if lp and lp[0] == "this" and any(consumption.decoder_call(x) == "read_unsigned" for x in ir.walk(rhs)):
-                    members_r.append((labels[0][1] if labels and labels[0][0] == "case" else None, lp[1]))
+    pinfo, prows = consumption.positional_reader(ts_r, facts)
+    if pinfo is not None:
+        for p_ in range(4):
+            for row_ in prows[p_]:
+                if row_[0] == "member" and row_[2] == "read_unsigned":
+                    members_r.append((p_, row_[1]))
     ok = okw and [m for _, m in sorted(members_r, key=lambda x: (x[0] is None, x[0]))] == members_w == ["m_secs", "m_ticks"]
     run.ob("R01.1", "Timestamp:[secs,ticks]", ok, ts_w, ts_w["line"],
            "timestamp written and read as [m_secs, m_ticks]" if ok else "timestamp array members differ: writer %s reader %s" % (members_w, members_r))
